@@ -1,6 +1,7 @@
 import SaModel.Props.C06
 import SaModel.Lemmas.C06Interp
 import SaModel.Lemmas.C06Side
+import SaModel.Lemmas.C06NewRoot
 import SaModel.Props.C01Complete
 import SaModel.Props.C01
 import SaModel.Props.C02
@@ -11,11 +12,11 @@ C06 — a schema traced from samples accepts those same samples: the chain close
                         mapped by `Spec.interp` at the field of EVERY tracer reachable from there, unless it is excluded
   fromSamples_interp    the same for a traced collection: every sample of the collection, at the traced root field
   fromSamples_interpRow … in the form the builder theorems use (`Spec.interpRow` against the traced schema)
-  C06_closure_build     trace ⇒ build: `runRows` (every `push` of `to_marrow`) accepts the whole collection
+  C06_closure_build_partial  trace ⇒ build: `runRows` (every `push` of `to_marrow`) accepts the whole collection
                         (`Props.C01.runRows_complete`), what remains of `to_marrow` is `build_arrays`
   C06_closure_decode    whenever `to_marrow` returns arrays, they decode (Arrow reading rules) column by column to
                         `interpRow` of the samples (`Props.C01.C01_build_decode`)
-  C06_closure_readback  … and `deserialize_any` on the arrays returns those logical values (`Props.C02.read_any_decode`)
+  C06_closure_readback_partial  … and `deserialize_any` on the arrays returns those logical values (`Props.C02.read_any_decode`)
 
 Exclusions, each an explicit decidable predicate on (data type of the traced field, sample) — `Lemmas/C06Excl.lean`:
 the three DOCUMENTED ones `nullAtEnum`, `dateLookalike`, `u64AboveI64`; the known finding `dataLessNewtype`; the finding of
@@ -120,7 +121,7 @@ theorem fromSamples_interpRow (o : Options) (ext : Ext) (h0 : o.overwrites = [])
 
 /-! ### trace ⇒ build -/
 
-/-- **`C06_closure_build`** (trace ⇒ build).  Whenever tracing a schema from the collection `xs` succeeds, every `push` of
+/-- **`C06_closure_build_partial`** (trace ⇒ build).  Whenever tracing a schema from the collection `xs` succeeds, every `push` of
 `to_marrow ext fields xs` succeeds (`runRows`), and `to_marrow` is what `build_arrays` makes of the final builder state.
 Hypotheses, all explicit:
   `hok`    the samples are serde values a Rust program can produce (`sampleOK`);
@@ -129,22 +130,24 @@ Hypotheses, all explicit:
            `C06-unseen-first-variant-default` (`Props.C01.default_refused`);
   `hsafe`  C01's `Safe` (no dictionary with non-nullable keys below a nullable struct: C01's known exclusion
            `dict_placeholder_unstable`; holds for every traced schema without dictionaries, `Lemmas.C06.to_schema_safe`);
-  `hnew`   `build_builder` accepts the traced schema (decidable on `fields`);
+  (that `build_builder` accepts the traced schema is PROVED: `Lemmas.C06.newRoot_traced`)
   `hcap`   capacity: the sizes of the samples fit the head room of the fresh builder (`room root0 = min (2^31-1 - used)
            (free dictionary keys)`, `Props.C01.small_NoCap`).
 The statement stops at `build_arrays` because totality of `finish` is not proved (`Props.C01.toMarrow_complete_partial`). -/
-theorem C06_closure_build (o : Options) (ext : Ext) (h0 : o.overwrites = []) (xs : List SVal) (fields : List Field)
-    (root0 : B) (h : fromSamples .fixed o xs = .ok fields)
+theorem C06_closure_build_partial (o : Options) (ext : Ext) (h0 : o.overwrites = []) (xs : List SVal) (fields : List Field)
+    (h : fromSamples .fixed o xs = .ok fields)
     (hok : ∀ x ∈ xs, SampleOK o x) (hex : ∀ x ∈ xs, excludedRow ext fields x = false)
     (htot : totalFs (Fields.ofList fields) = true)
-    (hnew : newRoot fields = .ok root0) (hsafe : Safe root0)
-    (hcap : (xs.map (vsize ext)).sum ≤ room root0) :
+    (hsafe : ∀ root0, newRoot fields = .ok root0 → Safe root0)
+    (hcap : ∀ root0, newRoot fields = .ok root0 → (xs.map (vsize ext)).sum ≤ room root0) :
     ∃ root, runRows ext fields xs = .ok root ∧
       toMarrow ext fields xs = (do let (arrs, _) ← buildArrays ext root; pure arrs) := by
   obtain ⟨t, n, children, md, ht, hs, _, _⟩ := fromSamples_root h
   have hside := to_schema_side_of_WF o h0 t (fromSamples_inv ht).wf fields hs
-  exact Props.C01.toMarrow_complete_partial ext fields xs root0 hside.2.2 hnew hsafe htot
-    (fun r hr => ⟨sampleOK_noRaw _ r (hok r hr), fromSamples_interpRow o ext h0 h r hr (hok r hr) (hex r hr)⟩) hcap
+  obtain ⟨root0, hnew⟩ := newRoot_traced o h0 t (fromSamples_inv ht) fields hs
+  exact Props.C01.toMarrow_complete_partial ext fields xs root0 hside.2.2 hnew (hsafe root0 hnew) htot
+    (fun r hr => ⟨sampleOK_noRaw _ r (hok r hr), fromSamples_interpRow o ext h0 h r hr (hok r hr) (hex r hr)⟩)
+    (hcap root0 hnew)
 
 /-! ### build ⇒ the arrays mean the samples -/
 
@@ -213,5 +216,70 @@ theorem C06_closure_readback_partial (o : Options) (ext : Ext) (h0 : o.overwrite
   refine ⟨cols[j].2[i], by simp [List.getElem?_eq_getElem hjc, List.getElem?_eq_getElem hli], ?_⟩
   exact Props.C02.read_any_decode arrs[j] i _ hdec (hrd _ (List.getElem_mem hj)) (hphys _ (List.getElem_mem hj))
     (hutf8 _ (List.getElem_mem hj) i _ hdec)
+
+/-! ### non-vacuity and necessity of the exclusions (kernel evaluation) -/
+
+/-- the hypotheses of `C06_closure_build_partial` (without `Safe`), decided on a collection; `ext = {}` -/
+def closureHypsB (o : Options) (xs : List SVal) : Bool :=
+  match fromSamples .fixed o xs with
+  | .ok fields =>
+    xs.all (fun x => sampleOK o.map_as_struct x && !excludedRow {} fields x) && totalFs (Fields.ofList fields) &&
+      (match newRoot fields with
+       | .ok r => decide ((xs.map (vsize {})).sum ≤ room r) && (runRows {} fields xs).isOk
+       | .error _ => false)
+  | .error _ => false
+
+/-- a nested collection: fields missing in some samples, a null, an empty and a non-empty list, a tuple, a map, a
+partially observed enum with data -/
+def wClosure : List SVal := [
+  recOf [("a", i32 1), ("l", seqOf []), ("t", tupOf [i32 1, .bool true]), ("e", .newtypeVariant "E" 1 "B" (i32 1))],
+  recOf [("a", .none), ("l", seqOf [.some (.str "x"), .none]), ("m", mapOf [("k", .f64 0)]), ("t", tupOf [i32 2, .bool false]),
+    ("e", .structVariant "E" 2 "C" (.cons "x" 0 (.str "s") .nil))]]
+
+set_option maxRecDepth 1000000 in
+/-- non-vacuity of `fromSamples_interpRow` / `C06_closure_build_partial`: tracing succeeds, every sample is well formed and
+not excluded, the schema is `total`, the builder can be made, the samples fit — and (the conclusion, evaluated) every
+`push` succeeds -/
+example : closureHypsB { allow_null_fields := true } wClosure = true := by decide +kernel
+
+/-- the exclusion `p` is NEEDED: the collection traces, its samples are well-formed serde values, the traced schema does
+not map sample `i` (`interpRow` fails), and `p` holds at some position of that sample -/
+def neededB (o : Options) (p : DataType → SVal → Bool) (xs : List SVal) (i : Nat) : Bool :=
+  match fromSamples .fixed o xs, xs[i]? with
+  | .ok fields, some x =>
+    xs.all (sampleOK o.map_as_struct) && !(interpRow {} fields x).isOk && hits p (.struct (Fields.ofList fields)) x
+  | _, _ => false
+
+set_option maxRecDepth 1000000 in
+/-- documented exclusion 1 is needed: `[E::A(1), None]` at one position traces to a nullable Union, `None` has no mapping -/
+theorem excl_nullAtEnum_needed :
+    neededB {} nullAtEnum (itemsOf [.newtypeVariant "E" 0 "A" (i32 1), .none]) 1 = true := by decide +kernel
+
+set_option maxRecDepth 1000000 in
+/-- documented exclusion 2 is needed: under `guess_dates` the string matches the date-time pattern and is traced as a
+Timestamp; a parser that refuses it (here `ext = {}`: the parser refusing everything) leaves it without a mapping -/
+theorem excl_dateLookalike_needed :
+    neededB { guess_dates := true } (dateLookalike {}) (itemsOf [.str "2020-12-24T08:30:00"]) 0 = true := by
+  decide +kernel
+
+set_option maxRecDepth 1000000 in
+/-- documented exclusion 3 is needed: `i8` and `u64` are coerced to Int64 under `coerce_numbers`; `u64::MAX` does not fit -/
+theorem excl_u64AboveI64_needed :
+    neededB { coerce_numbers := true } u64AboveI64 (itemsOf [.int .i8 1, .int .u64 18446744073709551615]) 1 = true := by
+  decide +kernel
+
+set_option maxRecDepth 1000000 in
+/-- known finding `C06-data-less-newtype-variant-as-string` is needed as an exclusion -/
+theorem excl_dataLessNewtype_needed :
+    neededB { enums_without_data_as_strings := true } dataLessNewtype
+      (itemsOf [.unitVariant "E" 1 "V1", .newtypeVariant "E" 2 "V2" .none, .unitVariant "E" 0 "V0"]) 1 = true := by
+  decide +kernel
+
+set_option maxRecDepth 1000000 in
+/-- FINDING `C06-unit-struct-into-value` (found by this proof, confirmed on the real crate: `to_marrow` answers
+"serialize_unit_struct is not supported"): `[1i32, UnitStruct]` traces to a nullable Int32 which does not take the unit
+struct -/
+theorem excl_unitStructAtValue_needed :
+    neededB {} unitStructAtValue (itemsOf [i32 1, .unitStruct "U"]) 1 = true := by decide +kernel
 
 end SaModel.Props.C06
